@@ -163,6 +163,10 @@ class Engine:
         if got is not None:
             return got
         names = set(getattr(cls, "__dataclass_fields__", {}).keys())
+        for attr in ("model_fields", "__fields__"):          # pydantic models (v2 / v1)
+            mf = cls.__dict__.get(attr) or getattr(cls, attr, None)
+            if isinstance(mf, dict):
+                names |= set(mf.keys())
         for k in cls.__mro__:
             for meth in ("__init__", "__post_init__", "__new__"):
                 f = k.__dict__.get(meth)
@@ -249,6 +253,8 @@ class Engine:
             return [(st, SInt(st.heap.get(field, z)))]
         if kind == "bool":
             return [(st, SBool(st.heap.get(field, z)))]
+        if kind == "real":
+            return [(st, SReal(st.heap.get(field, z)))]
         if kind == "str":
             return [(st, SStr(st.heap.get(field, z)))]
         if kind == "enum":
@@ -298,6 +304,8 @@ class Engine:
             st.heap.put(field, z, zint(val))
         elif kind == "bool":
             st.heap.put(field, z, zbool(val))
+        elif kind == "real":
+            st.heap.put(field, z, zreal(val))
         elif kind == "str":
             st.heap.put(field, z, zstr(val))
         elif kind == "enum":
